@@ -419,6 +419,32 @@ impl OutputPin for SimPin {
     }
 }
 
+thread_local! {
+    /// the world of the run executing on this thread (one run never leaves its thread);
+    /// lets a pin be a zero-sized type, as the pins of real HALs are
+    pub static CURRENT_WORLD: RefCell<Option<WorldRef>> = RefCell::new(None);
+}
+
+/// zero-sized pin: finds its world through the thread-local
+pub struct ZstPin<const ID: u8>;
+
+impl<const ID: u8> digital::ErrorType for ZstPin<ID> {
+    type Error = SimErr;
+}
+
+impl<const ID: u8> OutputPin for ZstPin<ID> {
+    fn set_low(&mut self) -> Result<(), SimErr> {
+        let w = CURRENT_WORLD.with(|c| c.borrow().clone()).expect("no current world");
+        let r = w.borrow_mut().pin_set(ID, false);
+        r
+    }
+    fn set_high(&mut self) -> Result<(), SimErr> {
+        let w = CURRENT_WORLD.with(|c| c.borrow().clone()).expect("no current world");
+        let r = w.borrow_mut().pin_set(ID, true);
+        r
+    }
+}
+
 pub struct SimSpi {
     pub w: WorldRef,
 }
